@@ -6,16 +6,19 @@
    causal_response); #print axioms audit.
 2. On the real Lcapy, for generated netlists (random R/C/L/V/I/E/G/F/H/TF netlists with one or two reactive
    elements; series / parallel RLC with chosen real, complex-conjugate and repeated poles; cascades of sections
-   isolated by controlled sources; coupled inductors; ideal transformers) x source waveforms (step, dc, ac,
-   exponential, ramp, t e^{-at}, damped sine, delayed step / exponential, impulse, delayed impulse; rates sometimes
-   equal to a natural frequency) x with / without initial conditions:
+   isolated by controlled sources; coupled inductors; ideal transformers; dc-driven circuits with a switch operated at
+   t = 0, converted by `convert_IVP`) x source waveforms (step, dc, ac, exponential, ramp, t e^{-at}, damped sine,
+   delayed step / exponential, impulse, delayed impulse; rates sometimes equal to a natural frequency) x with / without
+   initial conditions x numeric / partly symbolic R, C, L values (substituted by name into Lcapy's result):
      * ORACLE: Lcapy's closed forms `cct[node].v`, `cpt.i` (all branch currents), canonicalised into the formal
        signal type (c10.Canon), are given to the Lean driver, which decides `LawsTFormal` (differentiate, substitute,
        collect like terms: every KCL and component-law residual must cancel exactly), for t > 0 with the state at 0-
        (`td.laws full`) and on the pre-history t < 0 (`td.laws smooth`);
        reported `cpt.v`, `cpt.i` of every component against the spec's voltage / through current (`td.reported`);
-       initial values: no impulse => value at 0+ = state at 0- (`td.state`); causality (`td.causal`); results of an
-       initial-value problem carry the t >= 0 condition;
+       initial values: no impulse => capacitor voltage / inductor flux linkage at 0+ = state at 0- (`td.state`); causality
+       (`td.causal`); results of an initial-value problem carry the t >= 0 condition; switched circuits: the initial
+       conditions written by `convert_IVP(0)` against the dc solution of the pre-switch circuit computed by the Lean C01
+       model (`mna.solve dc`), and the response of the converted circuit against the laws FROM THAT STATE; a returned `nan`;
      * CORRESPONDENCE: the C01 model (front-end + MNA stamps + checked solver, ivp analysis at a random rational
        point s, sources = transforms of the raw waveforms) against the formal transform `L` of Lcapy's signals, and
        the s-domain spec `Laws .ivp` evaluated on those transforms (`td.model`).
@@ -608,7 +611,9 @@ def run(chk, replay=None):
     chk.coverage['rule'] = ('each case = netlist x source waveforms x initial conditions: templates random-1-reactive / random-2-reactive '
                             '(gen_netlist with R,C,L,V,I,E,G,F,H,TF), series / parallel RLC with chosen poles (real, complex-conjugate over the '
                             'Gaussian rationals, repeated), cascades isolated by E/G/F/H (repeated poles across sections), coupled inductors '
-                            '(K, both initial currents), ideal transformer; waveforms step, dc, ac, exp, t*exp, ramp, delayed step/exp, '
+                            '(K, both initial currents), ideal transformer, switched dc circuits through convert_IVP (series switch, '
+                            'shorting switch, two capacitors paralleled, RLC ring-down; no / nc); 25% of the cases with some R, C, L values '
+                            'symbolic; waveforms step, dc, ac, exp, t*exp, ramp, delayed step/exp, '
                             'impulse, delayed impulse, damped sine, cos*u (rates sometimes equal to a natural frequency); 45% with initial '
                             'conditions; non-trivial = Lcapy returned closed forms for every node voltage and branch current and all were '
                             'canonicalised (Gaussian-rational natural frequencies); distinct by netlist text')
@@ -633,7 +638,9 @@ def run(chk, replay=None):
                 if e.free_symbols - {tsym}:
                     raise Skip('free-symbols-left', what)
             if e.has(S.nan) or e.has(S.zoo) or e.has(S.oo):
-                raise Skip('nan-in-result', what)
+                # after substituting values into a symbolic result this is a 0/0 of the generic formula (e.g. a repeated
+                # natural frequency); for a numeric netlist it is what Lcapy returned
+                raise Skip('nan-after-substitution' if subs else 'nan-in-result', what)
             if any(a.is_Pow and a.exp.is_Rational and not a.exp.is_Integer for a in S.preorder_traversal(e)):
                 raise Skip('irrational-natural-frequency', what)
             sg = cnv.signal(e)
@@ -690,9 +697,18 @@ def run(chk, replay=None):
             with common.time_limit(40):
                 sigs, rep = lcapy_signals(case, smp)
         except Skip as ex:
-            chk.case(key_lines, False)
+            chk.case(key_lines, ex.args[0] == 'nan-in-result')
             chk.count('degenerate', ex.args[0])
-            if ex.args[0] in ('not-canonicalised', 'nan-in-result', 'free-symbols-left') and len(chk.coverage['correspondence']['diagnostics']) < 12:
+            if ex.args[0] == 'nan-in-result':
+                ncex[0] += 1
+                kinds = sorted({ctype(l.split()[0]) for l in case['lines']})
+                chk.counterexample({'kind': 'nan-result', 'delayed_source': any(w in ('dstep', 'dexp', 'ddelta') for w in case['waves']),
+                                    'has_ic': case['has_ic']},
+                                   {'input': {'case': {k: case[k] for k in ('template', 'lines', 'lcapy', 'has_ic', 'waves', 'poles', 'whole_axis', 'subs') if k in case}},
+                                    'lcapy': '%s = nan' % ex.args[1], 'spec': 'a returned response must be a time function satisfying the circuit laws',
+                                    'component_kinds': kinds},
+                                   'Lcapy returned nan for %s' % ex.args[1])
+            if ex.args[0] in ('not-canonicalised', 'nan-in-result', 'nan-after-substitution', 'free-symbols-left') and len(chk.coverage['correspondence']['diagnostics']) < 12:
                 chk.coverage['correspondence']['diagnostics'].append('%s: %s | %s | subs %s' % (ex.args[0], ex.args[1][:200], '; '.join(case['lcapy']), case.get('subs')))
             return
         except common.TimeLimit:
